@@ -809,7 +809,7 @@ class Interp:
 
     def stmt_If(self, s, frame):
         t = self.eval(s.test, frame)
-        if isinstance(t, SBool) and not (sym.z3.is_true(t.t) or sym.z3.is_false(t.t)) \
+        if getattr(self, 'if_conversion', True) and isinstance(t, SBool) and not (sym.z3.is_true(t.t) or sym.z3.is_false(t.t)) \
                 and self._simple_block(s.body) and self._simple_block(s.orelse):
             # if-conversion: both branches only assign local names -> merge with ite
             # instead of forking the path (keeps loops over bits linear)
@@ -1339,6 +1339,13 @@ class Interp:
                 return True
             except PyRaise:
                 return False
+        if fn is builtins.eval and len(args) == 1 and not kwargs and isinstance(args[0], str):
+            # eval(<concrete string>) with the default namespaces: the expression is evaluated in the calling frame
+            try:
+                node = ast.parse(args[0], mode='eval')
+            except SyntaxError as ex:
+                raise PyRaise(ex)
+            return self.eval(node.body, frame)
         if fn is builtins.eval or fn is builtins.exec:
             raise EngineError("eval/exec")
         if fn is builtins.locals:
@@ -1724,7 +1731,45 @@ def m_np_all(interp, x, *a, **k):
     return interp.call_real(np.all, [x] + list(a), k)
 
 
+def m_np_isclose(interp, a, b, rtol=1e-05, atol=1e-08, equal_nan=False):
+    """numpy contract (finite values): |a - b| <= atol + rtol * |b|, element-wise with broadcasting"""
+    if not (contains_sym(a) or contains_sym(b)):
+        return interp.call_real(np.isclose, [a, b], {"rtol": rtol, "atol": atol, "equal_nan": equal_nan})
+    from fractions import Fraction
+
+    def one(x, y):
+        x, y = lift(x), lift(y)
+        return abs(x - y) <= lift(Fraction(atol)) + lift(Fraction(rtol)) * abs(y)
+    if isinstance(a, np.ndarray) or isinstance(b, np.ndarray) or isinstance(a, (list, tuple)) or isinstance(b, (list, tuple)):
+        A = a if isinstance(a, np.ndarray) else (np.array(a, dtype=object) if isinstance(a, (list, tuple)) else _box(a))
+        B = b if isinstance(b, np.ndarray) else (np.array(b, dtype=object) if isinstance(b, (list, tuple)) else _box(b))
+        return np.frompyfunc(one, 2, 1)(A.astype(object), B.astype(object))
+    return one(a, b)
+
+
+def m_np_allclose(interp, a, b, rtol=1e-05, atol=1e-08, equal_nan=False):
+    if not (contains_sym(a) or contains_sym(b)):
+        return interp.call_real(np.allclose, [a, b], {"rtol": rtol, "atol": atol, "equal_nan": equal_nan})
+    r = m_np_isclose(interp, a, b, rtol, atol, equal_nan)
+    return m_np_all(interp, r) if isinstance(r, np.ndarray) else r
+
+
+def m_np_sum(interp, x, *a, **k):
+    """np.sum counts True entries of a boolean array: symbolic booleans enter as ite(b, 1, 0)"""
+    if isinstance(x, np.ndarray) and x.dtype == object and any(isinstance(v, SBool) for v in x.flat):
+        one, zero = SNum(sym.z3.IntVal(1), 'int'), SNum(sym.z3.IntVal(0), 'int')
+        x = np.frompyfunc(lambda v: sym.ite(v, one, zero) if isinstance(v, SBool) else (int(v) if isinstance(v, (bool, np.bool_)) else v), 1, 1)(x)
+        r = interp.call_real(np.sum, [x] + list(a), k)
+        if isinstance(r, SNum) and r.kind == 'int':
+            return np.int64(interp.concretize_int(r))       # a count of at most x.size booleans: case split
+        return r
+    return interp.call_real(np.sum, [x] + list(a), k)
+
+
 DEFAULT_MODELS = {
+    np.sum: m_np_sum,
+    np.isclose: m_np_isclose,
+    np.allclose: m_np_allclose,
     np.any: m_np_any,
     np.all: m_np_all,
     np.sqrt: _np_unary('sqrt', np.sqrt),
@@ -1930,6 +1975,17 @@ def m_np_mean(interp, x, axis=None, **k):
     return s / n
 
 
+def m_cmath_rect(interp, r, phi):
+    """cmath.rect(r, phi) == r (cos phi + j sin phi)"""
+    if not (contains_sym(r) or contains_sym(phi)):
+        import cmath
+        return interp.call_real(cmath.rect, [r, phi], {})
+    r, phi = lift(r), lift(phi)
+    return SComplex(r * phi.cos(), r * phi.sin())
+
+
+import cmath as _cmath
+DEFAULT_MODELS[_cmath.rect] = m_cmath_rect
 DEFAULT_MODELS[np.ceil] = m_np_ceil
 DEFAULT_MODELS[np.mean] = m_np_mean
 DEFAULT_MODELS[np.fft.fft] = _fft_model(np.fft.fft, False)
